@@ -33,7 +33,7 @@ def run(b):
     fpol1d = 2.0 - 0.8 * s**2 if b.get("fpol", "var") == "var" else np.full(b["nr"], 2.0)
     pressure = 100.0 * (1 - s) ** 2
     eq = tokamak.TokamakEquilibrium(r1d.copy(), z1d.copy(), psi2d.copy(), psi1d.copy(), fpol1d.copy(), pressure=pressure.copy(), make_regions=False,
-                                    settings={"psi_interpolation_method": b["method"]})
+                                    settings=dict({"psi_interpolation_method": b["method"]}, **b.get("options", {})))
     P = np.array(b["points"])
     R, Z = P[:, 0], P[:, 1]
     names = ["psi", "f_R", "f_Z", "Bp_R", "Bp_Z", "d2psidR2", "d2psidZ2", "d2psidRdZ", "Bzeta", "B2", "dBzetadR", "dBzetadZ", "dBRdR", "dBRdZ", "dBZdR", "dBZdZ",
@@ -64,7 +64,10 @@ def run(b):
     out["fpolprime_fd"] = richardson(lambda x: np.asarray(eq.fpol(x), dtype=float), ps, hp).tolist()
     out["f_psi_sign"] = float(eq.f_psi_sign)
     # nodes
-    out["node_err"] = float(np.max(np.abs(np.asarray(eq.psi(r2d, z2d)) - psi2d)))
+    # (the documented option transformations act on the input before it is interpolated)
+    o_ = b.get("options", {})
+    psi_in = psi2d * (-1.0 if o_.get("reverse_current") else 1.0) / (2.0 * np.pi if o_.get("psi_divide_twopi") else 1.0)
+    out["node_err"] = float(np.max(np.abs(np.asarray(eq.psi(r2d, z2d)) - psi_in)))
     out["psi_scale"] = float(np.max(np.abs(psi2d)))
     # argument kinds: scalar, array, MultiLocationArray
     kinds = {}
